@@ -152,7 +152,7 @@ INVARIANTS Idempotent MeaningPreserved ApplicationPreserves
 CHECK_DEADLOCK FALSE
 """
     rslots = ["since", "out_amount"] if quick else ["since", "until", "out_amount", "out_datum", "meta_value", "min_amount", "withdraw_amount", "second_out"]
-    rr = core.tlc_mc("MC_Reducer", rcfg.format(idx="TRUE", slots=q(rslots)), "c07_reducer", workers=4, timeout=1800)
+    rr = core.tlc_mc("MC_Reducer", rcfg.format(idx="TRUE", slots=q(rslots)), "c07_reducer", workers=4, timeout=1800, coverage=True)
     rep.add_tlc(rr)
     rep.extra["reducer_model_states"] = rr.distinct
     rd = core.tlc_mc("MC_Reducer", rcfg.format(idx="FALSE", slots=q(["since"])), "c07_reducer_dev", workers=2, timeout=900,
